@@ -3,7 +3,7 @@
 `install()` wraps `apply` of every Transformation subclass (monkeypatch, only
 when SVALAT_PSYCLONE_VERIF=1).  Every call becomes two trace lines
 
-    ["B", seq, trans, text, syms, tree]              (TransTxn!Begin)
+    ["B", seq, trans, text, syms, tree, carried]     (TransTxn!Begin)
     ["E", seq, outcome, text, syms, tree]            (Commit | Refuse | Crash)
 
 with outcome "ok" | "refused" (TransformationError) | "crash" (any other
@@ -167,21 +167,26 @@ class Recorder:
             if (sess["closed"] and cont is not None and len(cont[1]) == len(roots)
                     and all(a is b for a, b in zip(cont[1], roots))):
                 numbering, pre = cont[0], cont[2]
+                carried = 1
             else:
                 numbering = c26_fp.Numbering()
                 pre = self._fp(roots, numbering, True)
+                carried = 0
         else:
             # nested attempt: same numbering, and (LFRic) the same set of
             # pre-existing symbols as the enclosing top-level attempt
             numbering = self.stack[0]["numbering"]
             pre = self._fp(roots, numbering, False)
+            carried = 0
         name = type(tself).__name__
         opts = kwargs.get("options", args[1] if len(args) > 1 and
                           isinstance(args[1], dict) else None)
         info = {"seq": seq, "trans": name, "cls": cls.__name__, "depth": depth,
                 "target": (type(first).__name__, self._path(first)),
                 "opts": repr(opts)[:200], "ctx": self.context}
-        sess["lines"].append(["B", seq, name] + pre.triple())
+        # last field: 1 = the state is claimed to be the one the previous
+        # top-level attempt of this (closed) session ended in
+        sess["lines"].append(["B", seq, name] + pre.triple() + [carried])
         frame = {"self": tself, "first": first, "numbering": numbering}
         self.stack.append(frame)
         outcome, exc = "ok", None
